@@ -87,6 +87,12 @@ def generate(rng, tier):
             else: ops.append(rng.choice(["split", "clone", "pr"]))
         ops.append("pr")
         cs.append(Case("hdr %s %s %s %s" % (exp, role, K.hex(), " ".join(ops)), "header-garbage-" + exp + role, no_panic))
+    # a reader that ends (or fails) exactly after the four bytes of what decrypts to a large-header marker
+    for _ in range(n):
+        K = special_key(rng)
+        tail = rng.choice(["", ",Z", ",E3", ",I", ",D", ",I,Z"])
+        ops = ["rs:D%s%s" % (rbytes(rng, 4).hex(), tail), "pr", "rs:D%s" % rbytes(rng, rng.randint(0, 6)).hex(), "pr"]
+        cs.append(Case("hdr w c %s %s" % (K.hex(), " ".join(ops)), "wrath-client-read-ends-after-4", no_panic))
     return cs
 
 def check_output(case, out):
